@@ -1296,6 +1296,28 @@ for _i, _m in enumerate(_MODS + [FU]):
     VARIANTS.append(V(f'G-loc-{_i:02d}', 'E', ALL, _m, None, r'\A.*\Z', _localise_attrs, flags=re.S, note='attributes of self that only set-up methods assign are bound to locals at the top of each method that reads them twice'))
 
 
+# ---------------------------------------------------------------------- fresh round f6, second half
+VARIANTS += [
+    V('C01-M40', 'M', ('C01', 'C08'), ST, 'Parmapper.__iter__', r'ProcessPoolExecutor\(\n(\s+)self\._concurrency,', r'ProcessPoolExecutor(\n\1min(self._concurrency, len(self._instream)),', ('C01-10', 'C08-3'), note='seeded C01-f6m2 shape: pool sized by the input'),
+    V('C01-M41', 'M', ('C01',), ST, 'Parmapper.__iter__', r'ThreadPoolExecutor\(\n(\s+)self\._concurrency,', r'ThreadPoolExecutor(\n\1self._concurrency - 1,', ('C01-10',)),
+    V('C02-M40', 'M', ('C02', 'C04', 'C09'), WK, 'Worker._build_input_batches', r'[ ]*elif isinstance\(x, RemoteException\):\n\s+q_out\.put\(\(uid, x\)\)\n', '', ('C02-8', 'C04-3', 'C09-1'), note='seeded C02-f6m1 shape'),
+    V('C05-M40', 'M', ('C05', 'C08'), 'concurrent/futures/__init__.py', 'ThreadPoolExecutor', r'(\n    def submit\(self)', r'\n    def __exit__(self, exc_type, exc_val, exc_tb):\n        self.shutdown(wait=exc_type is None)\n        return False\n\1', ('C05-11', 'C08-3'), note='seeded C05-f6m2 shape'),
+    V('C05-M41', 'M', ('C05',), 'concurrent/futures/__init__.py', 'ProcessPoolExecutor', r'(\n    def submit\(self)', r'\n    def __exit__(self, *args):\n        self.shutdown(False)\n\1', ('C05-11',)),
+    V('C05-E40', 'E', ('C05', 'C08', 'C01'), 'concurrent/futures/__init__.py', 'ThreadPoolExecutor', r'(\n    def submit\(self)', r'\n    def __exit__(self, exc_type, exc_val, exc_tb):\n        self.shutdown(wait=True)\n        return False\n\1', note='the standard exit written out'),
+    V('C06-M40', 'M', ('C06', 'C04', 'C02'), SV, '_enter_server._onboard_input', r'except Exception as e:', 'except (TypeError, AttributeError) as e:', ('C06-15', 'C04-11', 'C02-8'), note='seeded C06-f6m2 shape'),
+    V('C08-M40', 'M', ('C08',), ST, 'ParmapperAsync.__init__', r'self\._fifo_capacity = self\._concurrency \* 2', 'self._fifo_capacity = self._concurrency - 2', ('C08-3',), note='seeded C08-f6m2 shape'),
+    V('C08-M41', 'M', ('C08',), SA, 'AsyncParmapperAsync.__aiter__', r'capacity=self\._concurrency \* 2', 'capacity=self._concurrency - 1', ('C08-3',)),
+    V('C09-M40', 'M', ('C09',), WK, 'Worker._build_input_batches', r'buffer\.put\(\(uid, x\)\)', 'buffer.put(z)', ('C09-1',), note='seeded C09-f6m1 shape'),
+    V('C09-M41', 'M', ('C09',), WK, 'Worker._start_batch.get_input', r'us = \[v\[0\] for v in batch\]\n\s+batch = \[v\[1\] for v in batch\]', 'us, batch = zip(*batch)', ('C09-11',), note='seeded C09-f6m2 shape'),
+    V('C09-M42', 'M', ('C09',), WK, 'Worker._start_batch.get_input', r'batch = \[v\[1\] for v in batch\]', 'batch = tuple(v[1] for v in batch)', ('C09-11',)),
+    V('C09-E40', 'E', ('C09', 'C02', 'C04'), WK, 'Worker._start_batch.get_input', r'batch = \[v\[1\] for v in batch\]', 'batch = list(v[1] for v in batch)'),
+    V('C12-M40', 'M', ('C12',), CX, 'SpawnProcess._bootstrap', r'exitcode = super\(\)\._bootstrap\(parent_sentinel\)\n\s+assert exitcode == 0', 'super()._bootstrap(parent_sentinel)', ('C12-13',), note='seeded C12-f6m2 shape'),
+    V('C12-E40', 'E', ('C12', 'C20'), CX, 'SpawnProcess._bootstrap', r'assert exitcode == 0\n(\s+)return self\._mpservice_exitcode_', r'if exitcode != 0:\n\1    return exitcode\n\1return self._mpservice_exitcode_', note='the standard code handed on instead of asserted'),
+    V('C20-M40', 'M', ('C20',), CX, 'SpawnProcess.run', r'(\n(\s+)except SystemExit as e:)', r'\n\2    logging.getLogger().removeHandler(qh)\1', ('C20-7',), note='seeded C20-f6m1 shape: handler removed before the handlers that report the failure'),
+    V('C20-E40', 'E', ('C20', 'C12'), CX, 'SpawnProcess.run', r'result_and_error\.close\(\)\n(\s+)if qh is not None:\n\s+logging\.getLogger\(\)\.removeHandler\(qh\)\n\s+logger_queue\.close\(\)', r'if qh is not None:\n\1    logging.getLogger().removeHandler(qh)\n\1    logger_queue.close()\n\1result_and_error.close()', note='the two closing steps of the finally swapped'),
+]
+
+
 # ---------------------------------------------------------------------- every local that is not a parameter renamed (and, second family, a statement added so that the function is not the recorded one up to renaming)
 def _rename_locals(pad):
     def f(m):
